@@ -206,7 +206,7 @@ PROPERTIES = {
         'not_decided': 'timeout timing',
     },
     'C12': {
-        'rules': ['RF3', 'RF6', 'PDO', 'RF14'],
+        'rules': ['RF3', 'RF6', 'PDO', 'RF14', 'PDOCFG'],
         'explanation': 'Timer-handle typestate for CO_TPDO.EvTmr/InTmr and the verified invariant '
                        '"(Flags & I) == 0 <=> InTmr released" (establish / arm / release obligations).',
         'not_decided': 'emission timing multiset',
@@ -223,7 +223,7 @@ PROPERTIES = {
         'not_decided': 'data equality',
     },
     'C20': {
-        'rules': ['RF3', 'RESET', 'LSS'],
+        'rules': ['RF3', 'RESET', 'LSS', 'EMCY', 'SDO'],
         'explanation': 'Release-on-reset: every handle overwritten by a re-initialisation called from CONmtReset is '
                        'released first (requirement propagation over call chains).',
         'not_decided': 'trace equivalence',
